@@ -295,7 +295,10 @@ def extract_gil_sites(repo: Path):
         for p in sorted(repo.glob(g)):
             rel = str(p.relative_to(repo))
             objs, bodies, text, macros, text_pp = scan_cpp(p, rel)
-            for m in re.finditer(r'\bgil_release\s+(\w+)\s*;', text):
+            for m in re.finditer(r'\bgil_release\s+(\w+)\s*;', text_pp):
+                in_macro = text[m.start():m.end()].strip() == ''
+                if in_macro and not re.match(r'\s*#\s*define\b', text_pp[text_pp.rfind('\n#', 0, m.start()) + 1:][:40]):
+                    continue            # inside a conditional-compilation line or similar: not a declaration we model
                 body = [b for b in bodies if b[0] < m.start() < b[1]]
                 if not body:
                     raise TranslationError(f'{rel}: gil_release outside a function body')
@@ -306,18 +309,19 @@ def extract_gil_sites(repo: Path):
                 func = hm.group(1)
                 is_entry = bool(re.search(r'PyObject\s*\*\s*\w+\s*,\s*PyObject\s*\*', header))
                 var = m.group(1)
-                op = _enclosing_open(text, m.start(), a)
-                cl = _match_brace(text, op)
-                first_stmt = text[op + 1:m.start()].strip() == '' or (
-                    op == a and re.fullmatch(r'(\s*assert\s*\([^;]*\)\s*;)*\s*', text[op + 1:m.start()]) is not None)
-                pre = text[max(a, op - 12):op]
+                T = text_pp if in_macro else text     # a declaration inside a #define: braces of the macro body
+                op = _enclosing_open(T, m.start(), a)
+                cl = _match_brace(T, op)
+                first_stmt = T[op + 1:m.start()].strip() == '' or (
+                    op == a and re.fullmatch(r'(\s*assert\s*\([^;]*\)\s*;)*\s*', T[op + 1:m.start()]) is not None)
+                pre = T[max(a, op - 12):op]
                 in_try = bool(re.search(r'\btry\s*$', pre))
                 # any try block of the same function enclosing the site
                 enclosing_try = in_try
                 j = op
                 while not enclosing_try and j > a:
-                    j = _enclosing_open(text, j, a) if j > a else a
-                    if re.search(r'\btry\s*$', text[max(a, j - 12):j]):
+                    j = _enclosing_open(T, j, a) if j > a else a
+                    if re.search(r'\btry\s*$', T[max(a, j - 12):j]):
                         enclosing_try = True
                     if j <= a:
                         break
